@@ -8,7 +8,9 @@ Oracle on the implementation (no model involved): the reference semantics runs t
 which assertions are false; real `nanoc S.nano -o <fresh path> --verbose` must exit non-zero, name exactly the failing tests,
 print "Shadow tests failed" and leave NO file at the output path iff there is a false one; else exit 0 and the file exists.
 Failing assertions are planted first / last / inside a loop / after passing ones / in the last of many blocks / in main's block /
-many / all.  Functions without a shadow block: warning on stderr, no effect on the gate.
+many / all; plus ITERATION-DEPENDENT assertions (shadowlib.iter_construct): false only in the first / a middle / every-but-the-last
+iteration with the last one passing, or only in the last, in for and while loops left normally / by break / by return, in the shadow
+block itself or in a helper function it calls (then the reference stops at the assertion: the gate must be closed, the test named).  Functions without a shadow block: warning on stderr, no effect on the gate.
 Tie: Driver/ShadowGate.nanoc extracted (nvref_c03) vs the real nanoc: exit status, binary, FAILED lines + counts, warnings."""
 import os, sys, random, collections, json, hashlib
 import vlib, progen, langlib
@@ -48,6 +50,11 @@ def record(ck, c, stream):
             gate_bad = ['%d tests executed by nanoc, %d by the reference' % (len(ex), len(rs))]
         nfalse = sum(1 for _, t in rs for x in t if not x)
         ck.extra['false_assertions_per_case'][min(nfalse, 9)] += 1
+        ck.count(c.s_src, True)
+    elif S.ref_fault_test(c) is not None:
+        # the reference stops at a false assertion inside a called function: the gate must be closed and the test named
+        gate_bad = S.cmp_gate_fault(c, S.ref_fault_test(c))
+        ck.extra['false_assertions_per_case']['in-callee'] += 1
         ck.count(c.s_src, True)
     else:
         ck.extra['ref_unavailable'][c.ref_a['cls']] += 1
@@ -127,10 +134,23 @@ def run(ck):
     for c in wit:
         record(ck, c, 'witness')
     skip_extern_case(ck, b, nv3)
+    # corpus: iteration-dependent assertions (false in a non-final iteration, true in the last one, ...): must pass the check
+    corp = [S.hand_case(k, p, sh) for k, (p, sh) in sorted(W.CORPUS.items())]
+    S.run_models(nv3, nvl, corp)
+    S.run_real(b, corp, 'c06c', want_native=False)
+    for c in corp:
+        record(ck, c, 'witness')
+        f = os.path.join(vlib.VERIF, 'corpus', 'C06', c.id.split(':')[-1] + '.nano')
+        if not os.path.exists(f) or open(f).read().split('\n', 1)[1] != c.s_src:
+            ck.note('corpus/C06/%s is not the rendering of shadow_witnesses.CORPUS[%s]' % (os.path.basename(f), c.id))
+        if c.r_rc == 0 or c.r_binary:
+            ck.fail(c.id + ':gate-open', 'corpus program with a false shadow assertion: nanoc rc=%s binary=%s' % (c.r_rc, c.r_binary), S.replay_dict(c))
     # 2. main stream: all placements of the failing assertion; some functions lose their shadow block
     cfg = S.stream_cfg(openk)
     n = 1200 if ck.thorough else 108
-    cases = S.build_cases(ck, nvl, [ck.seed * 611953 + i for i in range(n)], cfg, S.MUTATIONS, 'g%d' % ck.seed, drop_shadow_prob=0.12)
+    cases = S.build_cases(ck, nvl, [ck.seed * 611953 + i for i in range(n)], cfg, S.MUTATIONS + ['none'] * 3, 'g%d' % ck.seed, drop_shadow_prob=0.12,
+                          iter_prob=(0.85, 0.25))
+    S.count_iter(ck, cases)
     S.run_models(nv3, nvl, cases)
     S.run_real(b, cases, 'c06m', want_native=False)
     for c in cases:
@@ -144,7 +164,8 @@ def run(ck):
             ck.extra['features'][f] += 1
     # 3. clash stream (the evaluator's truth values are not the language's: the model must still predict the gate)
     m = 200 if ck.thorough else 24
-    clash = S.build_cases(ck, nvl, [ck.seed * 15485863 + i for i in range(m)], None, ['none', 'last', 'many'], 'q%d' % ck.seed, genf=S.clash_program)
+    clash = S.build_cases(ck, nvl, [ck.seed * 15485863 + i for i in range(m)], None, ['none', 'last', 'many'], 'q%d' % ck.seed, genf=S.clash_program,
+                          iter_prob=(0.3, 0.1))
     for c in clash:
         c.timeout = 12
     S.run_models(nv3, nvl, clash)
@@ -158,8 +179,8 @@ def run(ck):
     ck.cov['rule'] = ('one case = program + shadow blocks compiled by the real nanoc to a fresh output path; expected gate from the reference '
                       'semantics running the same statements; non-trivial = the reference run is defined; distinct = distinct source. '
                       'Failing assertion planted: ' + ', '.join(S.MUTATIONS))
-    for k in ('dropped', 'status', 'clash', 'modes', 'features', 'apart', 'ref_unavailable', 'false_assertions_per_case', 'gate_outcomes'):
-        ck.extra[k] = dict(ck.extra[k])
+    for k in ('dropped', 'status', 'clash', 'modes', 'features', 'apart', 'ref_unavailable', 'false_assertions_per_case', 'gate_outcomes', 'iteration_dependent'):
+        ck.extra[k] = dict(ck.extra.get(k, {}))
     ck.trusted += ['Lang/Ref.v as a faithful transcription of docs/SPECIFICATION.md sections 4-8 (reviewed by hand)',
                    'extraction ExtrOcamlBasic only; extract/nvio.ml, nvio_z.ml, c03_driver.ml',
                    'tools/progen.py, tools/props/shadowlib.py (generators, mutation of assertions, parsers of nanoc output), tools/langlib.py',
